@@ -277,6 +277,15 @@ class PreSeq:
 
 
 @dataclass(frozen=True)
+class EnumPart:
+    """enumerate(inner): per element of the inner part the pair (index, element)"""
+    inner: object
+
+    def __repr__(self):
+        return f"Enum({self.inner})"
+
+
+@dataclass(frozen=True)
 class MapPart:
     """[alts(x) for x in seq]: per element of seq, the alternative whose guard holds contributes its items"""
     seq: tuple           # parts iterated
